@@ -188,6 +188,72 @@ fn four_reps_f64(d: &mut Draw) -> Outcome {
     pass(["along-the-axis", "nearly-along-the-axis", "general", "general"][kind as usize], true)
 }
 
+/// native floats: conversion respects composition - for independent rotations and for rotations about the same axis, about
+/// axes 1e-12 .. 1e-2 rad apart (parallel or antiparallel), for a rotation with itself and with its inverse
+macro_rules! composition_native {
+    ($fname:ident, $F:ty) => {
+        fn $fname(d: &mut Draw) -> Outcome {
+            type F = $F;
+            let axis = f_unit3(d);
+            let (a1, a2) = (d.f64_in(-3.1, 3.1), d.f64_in(-3.1, 3.1));
+            let mkq = |ax: &[f64; 3], a: f64| -> [f64; 4] { let (s, c) = ((a / 2.0).sin(), (a / 2.0).cos()); fnormalize4(&[c, s * ax[0], s * ax[1], s * ax[2]]) };
+            let p = mkq(&axis, a1);
+            let kind = d.int(0, 7);
+            let (q, cls) = match kind {
+                0 | 1 => (f_unit_quat(d), "independent"),
+                2 => (mkq(&axis, a2), "same-axis"),
+                3 | 4 | 5 => {
+                    let g = f_unit3(d);
+                    let perp = fnormalize3(&cross3(&axis, &g));
+                    let sep = d.f64_log(1e-12, 1e-2);
+                    let sgn = if d.bool() { 1.0 } else { -1.0 };
+                    let ax2 = fnormalize3(&[sgn * axis[0] * sep.cos() + perp[0] * sep.sin(), sgn * axis[1] * sep.cos() + perp[1] * sep.sin(), sgn * axis[2] * sep.cos() + perp[2] * sep.sin()]);
+                    (mkq(&ax2, a2), if sep < 1e-7 { "axes-closer-than-1e-7-rad" } else { "axes-1e-7-to-1e-2-rad-apart" })
+                }
+                6 => (p, "with-itself"),
+                _ => ([p[0], -p[1], -p[2], -p[3]], "with-its-inverse"),
+            };
+            let cast = |u: &[f64; 4]| Quaternion::<F>::new(u[0] as F, u[1] as F, u[2] as F, u[3] as F);
+            let (cp, cq) = (cast(&p), cast(&q));
+            let v = f_vec3(d, -10.0, 10.0);
+            let cv = Vector3::new(v[0] as F, v[1] as F, v[2] as F);
+            d.note("unit p [w,x,y,z]", &p);
+            d.note("unit q [w,x,y,z]", &q);
+            d.note("v", &v);
+            let tol = 24.0 * F::EPSILON;
+            let pq = cp * cq;
+            // the product itself, against the harness' own Hamilton product of the values handed in (computed in f64)
+            let want = qmul(&[cp.s as f64, cp.v.x as f64, cp.v.y as f64, cp.v.z as f64], &[cq.s as f64, cq.v.x as f64, cq.v.y as f64, cq.v.z as f64]);
+            let got = [pq.s as f64, pq.v.x as f64, pq.v.y as f64, pq.v.z as f64];
+            for i in 0..4 {
+                ensure!((got[i] - want[i]).abs() <= 8.0 * F::EPSILON as f64, "product", "component {} of p * q is {:e}, Hamilton product {:e}", i, got[i], want[i]);
+            }
+            let diff3 = |a: &Matrix3<F>, b: &Matrix3<F>| -> F { let (x, y) = (a.rm(), b.rm()); x.max_abs_diff(&y) };
+            let m = Matrix3::from(pq);
+            let e = diff3(&m, &(Matrix3::from(cp) * Matrix3::from(cq)));
+            ensure!(e <= tol, "matrix3-composition", "Matrix3::from(p*q) differs from Matrix3::from(p) * Matrix3::from(q) by {:e}", e);
+            let e = Matrix4::from(pq).rm().max_abs_diff(&(Matrix4::from(cp) * Matrix4::from(cq)).rm());
+            ensure!(e <= tol, "matrix4-composition", "Matrix4::from(p*q) differs from Matrix4::from(p) * Matrix4::from(q) by {:e}", e);
+            let e = diff3(&Matrix3::from(Basis3::from(pq)), &Matrix3::from(Basis3::from(cp) * Basis3::from(cq)));
+            ensure!(e <= tol, "basis3-composition", "Basis3::from(p*q) differs from Basis3::from(p) * Basis3::from(q) by {:e}", e);
+            let pr: Quaternion<F> = [cp, cq].iter().product();
+            let pv: Quaternion<F> = vec![cp, cq].into_iter().product();
+            let e = diff3(&Matrix3::from(pr), &m).max(diff3(&Matrix3::from(pv), &m)).max(diff3(&Matrix3::from(&cp * &cq), &m)).max(diff3(&Matrix3::from(cp * &cq), &m)).max(diff3(&Matrix3::from(&cp * cq), &m));
+            ensure!(e <= tol, "product-forms-composition", "Product / reference forms of p*q give a matrix {:e} away from that of p*q", e);
+            let (once, twice) = (pq * cv, cp * (cq * cv));
+            let vl = (v[0].abs() + v[1].abs() + v[2].abs()) as F;
+            let e = (once.x - twice.x).abs().max((once.y - twice.y).abs()).max((once.z - twice.z).abs());
+            ensure!(e <= tol * vl, "rotate-twice", "(p*q)*v differs from p*(q*v) by {:e}", e);
+            let via = Matrix3::from(cp) * (Matrix3::from(cq) * cv);
+            let e = (once.x - via.x).abs().max((once.y - via.y).abs()).max((once.z - via.z).abs());
+            ensure!(e <= tol * vl, "rotate-by-matrices", "(p*q)*v differs from M(p) (M(q) v) by {:e}", e);
+            pass(cls, true)
+        }
+    };
+}
+composition_native!(composition_f64, f64);
+composition_native!(composition_f32, f32);
+
 fn back_q(d: &mut Draw) -> Outcome {
     let uq = spread_unit::<Q>(d);
     d.note("unit q [w,x,y,z]", &uq);
@@ -271,6 +337,9 @@ pub fn property() -> Property {
     add!("four_reps-Q", "Q", four_reps::<Q>, 4000, 300_000, 96, &[("generic", 200)]);
     add!("four_reps-Fp", "Fp", four_reps::<Fp>, 4000, 300_000, 96, &[("generic", 200)]);
     add!("four_reps-f64", "f64", four_reps_f64, 8000, 400_000, 48, &[("along-the-axis", 100), ("nearly-along-the-axis", 100), ("general", 200)]);
+    const COMP: &[(&str, u32)] = &[("independent", 100), ("same-axis", 50), ("axes-closer-than-1e-7-rad", 80), ("axes-1e-7-to-1e-2-rad-apart", 80), ("with-itself", 50), ("with-its-inverse", 50)];
+    add!("composition-f64", "f64", composition_f64, 8000, 400_000, 64, COMP);
+    add!("composition-f32", "f32", composition_f32, 8000, 400_000, 64, COMP);
     add!("back_conversion-Q", "Q", back_q, 8000, 400_000, 16, BR);
     add!("back_conversion-f64", "f64", back_f64, 8000, 400_000, 64, BRF);
     Property {
